@@ -7,6 +7,7 @@ import (
 	"encoding/json"
 	"fmt"
 	"strings"
+	"time"
 
 	cedar "github.com/cedar-policy/cedar-go"
 	publicast "github.com/cedar-policy/cedar-go/ast"
@@ -548,20 +549,30 @@ var nests = []nest{
 	{"policy-parens", func(d int) []byte {
 		return []byte("permit(principal,action,resource) when { " + rep("(", d) + "true" + rep(")", d) + " };")
 	}, textPolicyEntries[:1]},
-	{"policy-unary-not", func(d int) []byte { return []byte("permit(principal,action,resource) when { " + rep("!", d) + "true };") }, textPolicyEntries[:1]},
-	{"policy-unary-minus", func(d int) []byte { return []byte("permit(principal,action,resource) when { " + rep("-", d) + "1 == 1 };") }, textPolicyEntries[:1]},
+	{"policy-unary-not", func(d int) []byte {
+		return []byte("permit(principal,action,resource) when { " + rep("!", d) + "true };")
+	}, textPolicyEntries[:1]},
+	{"policy-unary-minus", func(d int) []byte {
+		return []byte("permit(principal,action,resource) when { " + rep("-", d) + "1 == 1 };")
+	}, textPolicyEntries[:1]},
 	{"policy-sets", func(d int) []byte {
 		return []byte("permit(principal,action,resource) when { " + rep("[", d) + rep("]", d) + ".isEmpty() };")
 	}, textPolicyEntries[:1]},
 	{"policy-records", func(d int) []byte {
 		return []byte("permit(principal,action,resource) when { " + rep("{a:", d) + "1" + rep("}", d) + " == 1 };")
 	}, textPolicyEntries[:1]},
-	{"policy-member-chain", func(d int) []byte { return []byte("permit(principal,action,resource) when { context" + rep(".a", d) + " };") }, textPolicyEntries[:1]},
+	{"policy-member-chain", func(d int) []byte {
+		return []byte("permit(principal,action,resource) when { context" + rep(".a", d) + " };")
+	}, textPolicyEntries[:1]},
 	{"policy-if", func(d int) []byte {
 		return []byte("permit(principal,action,resource) when { " + rep("if true then true else ", d) + "true };")
 	}, textPolicyEntries[:1]},
-	{"policy-and-chain", func(d int) []byte { return []byte("permit(principal,action,resource) when { true" + rep(" && true", d) + " };") }, textPolicyEntries[:1]},
-	{"policy-add-chain", func(d int) []byte { return []byte("permit(principal,action,resource) when { 0" + rep(" + 0", d) + " == 0 };") }, textPolicyEntries[:1]},
+	{"policy-and-chain", func(d int) []byte {
+		return []byte("permit(principal,action,resource) when { true" + rep(" && true", d) + " };")
+	}, textPolicyEntries[:1]},
+	{"policy-add-chain", func(d int) []byte {
+		return []byte("permit(principal,action,resource) when { 0" + rep(" + 0", d) + " == 0 };")
+	}, textPolicyEntries[:1]},
 	{"policy-many-policies", func(d int) []byte { return []byte(rep("permit(principal,action,resource);", d)) }, textPolicyEntries[1:]},
 	{"json-policy-not", func(d int) []byte {
 		return []byte(`{"effect":"permit","principal":{"op":"All"},"action":{"op":"All"},"resource":{"op":"All"},"conditions":[{"kind":"when","body":` + rep(`{"!":{"arg":`, d) + `{"Value":true}` + rep(`}}`, d) + `}]}`)
@@ -639,10 +650,11 @@ func lightDecode(t *core.T, name string, src []byte) {
 func depthSweep(maxK int) *core.Family {
 	perNest := maxK + 1
 	return &core.Family{
-		Name:     "depth-sweep",
-		Desc:     fmt.Sprintf("nesting depth 2^k, k = 0..%d, for %d recursive constructs (parentheses, unary stacks, sets, records, member chains, if, operator chains, JSON nodes, JSON values, Set<Set<..>> in schema text and JSON), each in its own worker process", maxK, len(nests)),
-		N:        int64(len(nests) * perNest),
-		Isolated: true,
+		Name:       "depth-sweep",
+		HangAfter:  -1, // cases legitimately take seconds at depth 2^22
+		Desc:       fmt.Sprintf("nesting depth 2^k, k = 0..%d, for %d recursive constructs (parentheses, unary stacks, sets, records, member chains, if, operator chains, JSON nodes, JSON values, Set<Set<..>> in schema text and JSON), each in its own worker process", maxK, len(nests)),
+		N:          int64(len(nests) * perNest),
+		Isolated:   true,
 		CrashClass: func(i int64) string { return nests[int(i)/perNest].name },
 		Run: func(t *core.T, i int64) {
 			n := nests[int(i)/perNest]
@@ -659,8 +671,9 @@ func depthSweep(maxK int) *core.Family {
 
 func Check() *core.Check {
 	return &core.Check{
-		ID:    "C10",
-		Title: "Decoders and encoders are total: no panic, crash or hang on any input",
+		ID:        "C10",
+		HangAfter: 60 * time.Second, // cases take milliseconds (see max_case_s in the evidence)
+		Title:     "Decoders and encoders are total: no panic, crash or hang on any input",
 		Rule: "three bounded-exhaustive families, no random fuzzing: (1) every token sequence up to the stated length over the token alphabets of the policy and schema languages, in several syntactic contexts, and every 3-byte string over structural bytes into every decoder; (2) every document within the stated number of deviations (replace / delete / duplicate / wrap at every JSON tree position; token and byte edits of text) from valid seed documents covering every construct; (3) nesting depth 2^k for every recursive construct, in isolated worker processes; oracle: the decoder returns, no panic, no fatal error, and every accepted value passes through every encoder and the authorizers without a panic; " +
 			"a case is non-trivial if at least one decoder accepted the input (so the encoders and authorizers ran on it)",
 		Assumptions: []string{"`all byte strings` beyond these bounded families are not covered", "a fatal error is only reported if it recurs 3 times in a fresh process with the default stack limit"},
